@@ -611,12 +611,15 @@ def native_replay(work, job, rec, fail):
         return "unsupported", "native build failed: " + e.decode(errors="replace")[-1500:]
     env = dict(os.environ, ASAN_OPTIONS="detect_leaks=0:abort_on_error=0", UBSAN_OPTIONS="print_stacktrace=1")
     rc, o, e, to, _ = run([exe], timeout=60, env=env)
-    text = (o + e).decode(errors="replace")[-3000:]
-    if "VF-ASSUME-FAILED" in text:
+    full = (o + e).decode(errors="replace")
+    text = full[-3000:]
+    if "VF-ASSUME-FAILED" in full:
         return "not-reproduced", text
     if re.search(r"\(pc 0x0+ ", text):
         return "unsupported", "native run called a function outside the linked units: " + text
-    if "VF-FAIL" in text or "ERROR: AddressSanitizer" in text or "runtime error" in text or rc < 0:
+    if re.search(r"\(pc 0x0+ ", full):
+        return "unsupported", "native run called a function outside the linked units: " + text
+    if "VF-FAIL" in full or "ERROR: AddressSanitizer" in full or "runtime error" in full or rc < 0:
         return "reproduced", text
     return "not-reproduced", text
 
